@@ -356,7 +356,19 @@ func vfTCPAddr(ip int) *net.TCPAddr {
 func vfUDPAddr(ip int) *net.UDPAddr {
 	return &net.UDPAddr{IP: net.ParseIP(vfClientIPs[ip-1]), Port: vfClientPorts[ip-1]}
 }
-func vfKey(k int) string { return fmt.Sprintf("k%d", k) }
+// access key IDs: key 2 of every key universe is the key whose configured ID is the EMPTY string (both config formats
+// allow a key without `id:`); for the specifications it is just another key.
+const vfEmptyKey = 2
+
+func vfKey(k int) string {
+	if k == vfEmptyKey {
+		return ""
+	}
+	return fmt.Sprintf("k%d", k)
+}
+
+// vfPlainKey: key IDs of the harnesses that do not have the empty ID in their universe
+func vfPlainKey(k int) string { return fmt.Sprintf("k%d", k) }
 
 // string-backed address (what a wrapper around a connection may return): only String() tells the client
 type vfStrAddr struct{ network, s string }
